@@ -21,6 +21,9 @@ EXPLANATION = (
     "by abs(det overlap) > threshold on the orbitals it returns and the failure path raises ValueError. "
     "GUARD-1: the accepted overlap of a restricted initial walker covers both spin sectors of the "
     "trial. "
+    "PAIR-4: an eigh eigenvector matrix that reaches a returned walker is column-reversed, flipped or "
+    "tail-sliced first (descending occupation); used in ascending order the leading columns are the least "
+    "occupied ones. "
 )
 NOT_DECIDED = (
     "orthonormality of Q, invariance of energy / force bias under QR, the overlap lower bound in the "
